@@ -75,7 +75,10 @@ class Lscmp(Contract):
 
 
 def _tob(X, args, kwargs):
-    (v,) = args
+    # tob(value): the UTF-8 bytes of a text (injective: different secrets give different MAC keys).  Another codec or an error
+    # policy that replaces characters is not: two secrets may then share one key, and a cookie signed with one verifies under the other
+    X.prove('mac.key_and_message_bytes_are_the_utf8_bytes_of_the_text', z3.BoolVal(len(args) == 1 and not kwargs))
+    v = args[0]
     if isinstance(v, VBytes):
         return v
     if isinstance(v, VStr) and z3.is_string_value(z3.simplify(v.t)):
